@@ -55,6 +55,9 @@ CHECKS["C17"] = dict(cat="model_checking", technique="explicit-state BFS over le
              text="All legal histories up to depth 8 (thorough 10) over creating modules by API / scan / binary read / c2mir_compile, load, link with each interface, run, MIR_gen at changing levels, MIR_output and MIR_write are executed on a context created with a checking MIR_alloc and MIR_code_alloc and closed by gen_finish, c2mir_finish, MIR_finish; "
                   "every realloc must quote the block's true size, no block may be freed twice, touched after free or left allocated, no code region may stay mapped, code pages are writable only inside a write window (a store outside faults), and a direct libc allocator call from library code is reported.",
              note="canonical state = legality automaton state + number of live code regions; libc-internal allocations are not judged; thorough tier repeats the BFS on the asan build", ref="§3 C17")
+CHECKS["C09"] = dict(cat="exploration", technique="exhaustive grammar enumeration of macro definitions / invocations / #if expressions, c2m -E against gcc -E compared as pp-token sequences",
+             text="Every replacement list of up to 3 (thorough 4) tokens over {x,y,#x,#y,##,x##y,A,B,F,G,(,),comma,1,+,__VA_ARGS__} in several macro environments (self reference, mutual recursion, function-like names without call, pasting) with fixed invocations, every parenthesis-balanced invocation of up to 5 (6) tokens against 27 fixed bodies, every #if expression of depth 2 plus reduced depth 3 over all preprocessor operators and boundary leaves, and conditional nests are preprocessed by the real c2m binary and by gcc; token sequences must agree.",
+             note="cases on which gcc -std=c11 -pedantic -Wall -Wextra prints any diagnostic, #if expressions with undefined intmax_t behaviour (gen/ppeval.py) and two C11-undefined paste forms are dropped; tokens that c2m -E prints without a separating blank are not judged; #include/#pragma outside the grammar", ref="§3 C09")
 NOT_YET = {}
 def main():
     props = [json.loads(l) for l in open(os.path.join(VERIF, "properties.jsonl"))]
